@@ -342,7 +342,7 @@ pub struct ReservePlan {
 pub fn reserve_template(rng: &mut Prng, n_eoa: usize, base: usize, pre_state: &mut Vec<AccountSpec>) -> ReservePlan {
     let w = contract(base); // spender code run in the delegated account's context
     let sink = eoa((n_eoa - 1).max(0));
-    let kind = rng.below(4);
+    let kind = rng.below(6);
     let program = match kind {
         0 => vec![Stmt::Call { kind: CallKind::Call, to: addr_expr(sink), value: Expr::CallData(1), arg0: imm(0), arg1: imm(0), gas: 60_000 }, Stmt::Mix(Expr::SelfBalance)],
         1 => vec![
@@ -355,7 +355,10 @@ pub fn reserve_template(rng: &mut Prng, n_eoa: usize, base: usize, pre_state: &m
             let runtime = evmasm::compile(&[Stmt::Mix(Expr::SelfBalance)]);
             vec![Stmt::Create { init: evmasm::compile_init(&[], &runtime), value: Expr::CallData(1) }]
         }
-        _ => vec![Stmt::Mix(Expr::SelfBalance), Stmt::SelfDestruct(addr_expr(sink))],
+        3 => vec![Stmt::Mix(Expr::SelfBalance), Stmt::SelfDestruct(addr_expr(sink))],
+        // pays the immediate caller: with a call-back from the transaction's own target this debit
+        // has the same source, amount and target as the transaction's top-level value transfer
+        _ => vec![Stmt::Call { kind: CallKind::Call, to: Expr::Caller, value: Expr::CallData(1), arg0: imm(0), arg1: imm(0), gas: 60_000 }, Stmt::Mix(Expr::SelfBalance)],
     };
     pre_state.push(contract_account(w, &program, &[], 0));
     // helper that always reverts after receiving value
@@ -365,9 +368,14 @@ pub fn reserve_template(rng: &mut Prng, n_eoa: usize, base: usize, pre_state: &m
     let a = eoa(delegated);
     // later own transactions of the delegated account: known maximum cost each
     let own = rng.range(0, 3) as usize;
-    let gas_limit = 50_000u64;
+    let gas_limit = 400_000u64;
+    let max_fee = 40u128;
+    let gas_limit = 400_000u64;
     let max_fee = 40u128; // the generator caps gas_price for these below
-    let own_value = 1_000u64;
+    // Unused gas of an own transaction is slack too, so interesting amounts live on the scale of one
+    // transaction's maximum fee (gas_limit * max_fee): values just below / at / above it
+    let fee_scale = gas_limit * max_fee as u64;
+    let own_value = *rng.pick(&[1_000u64, fee_scale / 2, fee_scale - 1_000_000, fee_scale, fee_scale + 1_000_000, fee_scale + fee_scale / 4]);
     let required: u128 = own as u128 * (gas_limit as u128 * max_fee + own_value as u128);
     let slack = *rng.pick(&[0u64, 1, 500, 10_000]);
     let balance = required + slack as u128 + if rng.chance(1, 4) { ETHER } else { 0 };
@@ -382,7 +390,7 @@ pub fn reserve_template(rng: &mut Prng, n_eoa: usize, base: usize, pre_state: &m
         }
         i
     };
-    let amounts = [0u64, 1, slack, slack + 1, slack.saturating_sub(1), 499, 10_001];
+    let amounts = [0u64, 1, slack, slack + 1, slack.saturating_sub(1), 499, 10_001, fee_scale / 2, fee_scale, fee_scale + 1_000_000, own_value];
     let mut intents = Vec::new();
     let n_calls = rng.range(1, 3) as usize;
     for _ in 0..n_calls {
@@ -393,12 +401,29 @@ pub fn reserve_template(rng: &mut Prng, n_eoa: usize, base: usize, pre_state: &m
         intents.push(Intent { sender: s(rng), to: Some(a), value: U256::from(*rng.pick(&amounts)), data: Bytes::from(vec![0u8; 64]), gas_limit: 200_000, auths: vec![], label: "credit-delegated" });
     }
     rng.shuffle(&mut intents);
-    for _ in 0..own {
+    // call-back contract: forwards its second calldata word to the delegated account's code
+    let cb = contract(base + 2);
+    pre_state.push(contract_account(
+        cb,
+        &[Stmt::Call { kind: CallKind::Call, to: addr_expr(a), value: imm(0), arg0: imm(0), arg1: Expr::CallData(1), gas: 150_000 }, Stmt::Mix(Expr::SelfBalance)],
+        &[],
+        0,
+    ));
+    for k in 0..own {
         let at = rng.below(intents.len() as u64 + 1) as usize;
-        intents.insert(
-            at.max(1).min(intents.len()),
-            Intent { sender: delegated, to: Some(sink), value: U256::from(own_value), data: Bytes::new(), gas_limit, auths: vec![], label: "own-tx-of-delegated" },
-        );
+        let via_callback = k + 1 < own && rng.chance(1, 2);
+        let intent = if via_callback {
+            // own transaction with value v to the call-back contract, which re-enters the account's
+            // delegated code with the amount v (or v +- 1)
+            let back = *rng.pick(&[own_value, own_value, own_value + 1, own_value - 1, slack, 0]);
+            let mut i = Intent::call(delegated, cb, &[0, back], "own-tx-of-delegated");
+            i.value = U256::from(own_value);
+            i.gas_limit = gas_limit;
+            i
+        } else {
+            Intent { sender: delegated, to: Some(sink), value: U256::from(own_value), data: Bytes::new(), gas_limit, auths: vec![], label: "own-tx-of-delegated" }
+        };
+        intents.insert(at.max(1).min(intents.len()), intent);
     }
     ReservePlan { intents, delegated }
 }
